@@ -81,16 +81,23 @@ func throughStack(run *rep.Run, rng *rand.Rand) {
 	for _, b := range backs {
 		ref[b.URL()] = map[string]bool{}
 	}
-	rounds := rep.Pick(30, 300)
+	rounds := rep.Pick(40, 400)
 	var trace []opRec
+	streak, streakEp := 0, 0
 	for rd := 0; rd < rounds; rd++ {
 		if time.Duration(rd)*300*time.Millisecond > 20*time.Second {
 			// keep the world younger than the real tickers' first run where possible
 		}
 		i := rng.Intn(len(backs))
-		b, c := backs[i], cfgs[i]
 		// choose the listing this endpoint will give
-		kind := []string{"ok", "ok", "ok", "empty", "500", "garbage"}[rng.Intn(6)]
+		kind := []string{"ok", "ok", "ok", "empty", "500", "garbage", "404", "401"}[rng.Intn(8)]
+		if streak > 0 { // a run of consecutive failed fetches on one endpoint (discovery gives up on it after a few)
+			i, kind = streakEp, []string{"500", "garbage", "reset"}[rng.Intn(3)]
+			streak--
+		} else if rng.Intn(12) == 0 {
+			streak, streakEp = 5+rng.Intn(3), i
+		}
+		b, c := backs[i], cfgs[i]
 		var listing []string
 		switch kind {
 		case "ok":
@@ -105,6 +112,16 @@ func throughStack(run *rep.Run, rng *rand.Rand) {
 			b.SetModelsRaw(500, []byte(`{"error":"nope"}`))
 		case "garbage":
 			b.SetModelsRaw(200, []byte(`{"models": [ {"name": `))
+		case "404":
+			b.SetModelsRaw(404, []byte(`{"error":"not found"}`))
+		case "401":
+			b.SetModelsRaw(401, []byte(`{"error":"unauthorized"}`))
+		case "reset":
+			b.SetModelsRaw(0, nil)
+			b.SetModelsFault("reset_before_headers")
+		}
+		if kind != "reset" {
+			b.SetModelsFault("")
 		}
 		// not-healthy -> healthy transition triggers exactly one discovery of this endpoint
 		before := b.ModelsHits.Load()
